@@ -483,12 +483,17 @@ func vRefChain(cands []*operation.AnchoredOperation, st *protocol.ResolutionMode
 
 // vWorldSetup builds N records with types chosen by case split; every other attribute symbolic.
 func vWorldSetup(n int, firstIsCreate bool) {
+	vWorldSetupTypes(n, firstIsCreate, 0, 3)
+}
+
+// vWorldSetupTypes restricts the operation types after the first to vOpType(lo..hi).
+func vWorldSetupTypes(n int, firstIsCreate bool, lo, hi int) {
 	vW = &vWorld{}
 	vInstallCommitStub()
 	for i := 0; i < n; i++ {
 		k := 0
 		if i > 0 || !firstIsCreate {
-			k = VNondetRange("type", 0, 3)
+			k = VNondetRange("type", lo, hi)
 		}
 		r := vNewRec(vOpType(k))
 		VAssume(vCommit(r.reveal) != "") // an encoded multihash is never empty
